@@ -126,6 +126,14 @@ def rule_r2(rep, program: Program):
     env = SymEnv({})
     env.run(part.body)
     got = env.env.get(f"{sp}.mom")
+    if got is None:
+        # in-place update through an alias of the momentum array (`mom = state.mom; mom *= a; mom += b*n`):
+        # the array the state holds is updated all the same (the missing re-assignment is C09's concern)
+        aliases = [norm(st.targets[0]) for st in part.body if isinstance(st, ast.Assign) and len(st.targets) == 1 and isinstance(st.targets[0], ast.Name) and norm(st.value) == f"{sp}.mom"]
+        augs = {norm(st.target) for st in part.body if isinstance(st, ast.AugAssign)}
+        for al in aliases:
+            if al in augs and al in env.env:
+                got = env.env[al]
     p0 = Rat.sym(f"{sp}.mom")
     draws = [c for c in env.calls if "sample_momentum" in c]
     r.inst({"partial update": repr(got), "draw": draws})
